@@ -10,6 +10,14 @@ NOT_APPLICABLE = {
 
 # id -> (engine, level category, level text, level note, technique, design_ref)
 CHECKS = {
+    "C08": ("StepExec", "exploration",
+            "Differential simulation: random command sequences (transactions ending in commit / rollback / dropped permit, inserts, deletes, payload deletions, prunes, dirty restarts of a file database) against real SqliteStore and the in-memory reference model, every log query (latest entry, heights over arbitrary id sets incl. empty / unknown / repeated, ranged entries and sizes with boundary after/until values) compared call by call; panics are violations.",
+            "One client, one call in flight. Empty range in get_log_size may be None or (0,0). Trusted: SQLite/sqlx.",
+            "deterministic simulation: differential command sequences against a reference model, with restart faults", "§4 C08"),
+    "C09": ("StepExec", "exploration",
+            "Same differential simulation as C08; clauses owned here: operation store (insert true exactly once, read-back equality of id / header bytes / body, delete, payload deletion, _tx methods without transaction fail), topic store as a set of triples, cursor store last-write-wins, all also after dirty restarts.",
+            "One client, one call in flight; pool-level writes are not issued while a transaction is open.",
+            "deterministic simulation: differential command sequences against a reference model, with restart faults", "§4 C08/C09"),
     "C01": ("StepExec", "exploration",
             "Seeded search over delivery schedules in which a network adversary adds forged copies of honest operations, each with exactly one of 17 mutation kinds (bit flips through the real CBOR decoder, body changes, every header field incl. extensions, signature strip / replace / re-sign, author-signed malformed headers), before or after the honest copy; every forged copy must be rejected with the store dump unchanged, and everything ever stored must be byte-identical to what an honest author signed.",
             "Sequential ingest calls on real SQLite (and on MemStore for volume). The node-level import / sync entry points are covered by C04's node scenario. Trusted: ed25519/blake3, SQLite.",
